@@ -14,6 +14,8 @@
 (*     tail damage;                                                        *)
 (*   pql: a token string over the grammar's alphabet, or a deep nest;      *)
 (*   msg: a cluster message (type byte x body class);                      *)
+(*   env: the ENVELOPE of an import-roaring request: 0-2 views (name x data *)
+(*     class), the clear flag, an absent or an empty view map;             *)
 (*   each together with the entry point it is submitted through.           *)
 (*   The harness materialises the case to bytes with its own encoders.     *)
 (*   The oracle is the outcome CLASS only: Accepted or Rejected - never    *)
@@ -31,10 +33,11 @@
 (***************************************************************************)
 EXTENDS Integers, Sequences, FiniteSets, TLC, Json
 
-CONSTANTS Families,    \* subset of {"roaring", "pql", "msg"}: generator families of this run
+CONSTANTS Families,    \* subset of {"roaring", "pql", "msg", "env"}: generator families of this run
           Entries,     \* roaring family: entry points enumerated with Shapes and Tails
           SrvEntries,  \* roaring family: entry points enumerated with SrvShapes (no tails)
           PqlEntries, MsgEntries,
+          EnvEntries,  \* envelope family: entry points of import-roaring requests
           Formats,     \* subset of {"pilosa","official","official_runs"}
           Shapes, SrvShapes,  \* sets of sequences over {"a","b","r"} (container types)
           Tails,       \* set of sequences over op kinds (op-log tail of a Pilosa file)
@@ -56,7 +59,8 @@ TailEntries == {"unmarshal", "frag_open"}   \* entries that read an op-log tail
 
 NoCase == [fam |-> "none", entry |-> "", fmt |-> "", shape |-> << >>, tail |-> << >>,
            cors |-> << >>, toks |-> << >>, nestkind |-> "", nest |-> 0,
-           mtype |-> 0, mbody |-> ""]
+           mtype |-> 0, mbody |-> "",
+           form |-> "", clear |-> FALSE, views |-> << >>]
 
 Cor(k, s, i, v) == [kind |-> k, sec |-> s, idx |-> i, val |-> v]
 
@@ -199,6 +203,32 @@ MsgBase0 ==
        /\ c' = [NoCase EXCEPT !.fam = "msg", !.entry = e, !.mtype = ty, !.mbody = b]
        /\ stage' = "fin"
 
+\* ---- the envelope of an import-roaring request (ImportRoaringRequest{Clear, Views}):
+\* how many views, under which names, with which class of data, the clear flag alone,
+\* no view map at all.  "" is the standard view, "2019" a time view, "standard" a name
+\* that collides with the standard view's, "Bad/Name" an invalid one.  Data classes:
+\* valid (a bit no earlier case set), zero (zero-length), short (1 byte), garbage (8
+\* bytes, unknown magic).  Views are added in the order of EnvNames (a map has no order).
+EnvNames == <<"", "standard", "2019", "Bad/Name">>
+EnvData  == {"valid", "zero", "short", "garbage"}
+EnvForms == {"nilmap", "map"}       \* Views absent / present (possibly empty)
+NameIdx(nm) == CHOOSE i \in 1..Len(EnvNames) : EnvNames[i] = nm
+
+EnvBase ==
+    /\ stage = "base"
+    /\ \E e \in EnvEntries, fm \in EnvForms, cl \in BOOLEAN :
+          c' = [NoCase EXCEPT !.fam = "env", !.entry = e, !.form = fm, !.clear = cl]
+    /\ stage' = "views"
+
+EnvAddView ==
+    /\ stage = "views"
+    /\ c.form = "map"                  \* an absent map carries no views
+    /\ Len(c.views) < 2
+    /\ \E i \in 1..Len(EnvNames), d \in EnvData :
+          /\ \A j \in 1..Len(c.views) : NameIdx(c.views[j].name) < i
+          /\ c' = [c EXCEPT !.views = Append(@, [name |-> EnvNames[i], data |-> d])]
+    /\ UNCHANGED stage
+
 PqlBase ==
     /\ stage = "base"
     /\ PqlBase0
@@ -211,6 +241,7 @@ Base ==
     /\ \/ "roaring" \in Families /\ RoaringBase
        \/ "pql" \in Families /\ PqlBase
        \/ "msg" \in Families /\ MsgBase
+       \/ "env" \in Families /\ (EnvBase \/ EnvAddView)
     /\ UNCHANGED <<hist, srv>>
 
 Corrupt ==
@@ -227,6 +258,7 @@ Corrupt ==
 
 Finish ==
     /\ \/ stage = "fin"
+       \/ stage = "views"
        \/ stage = "cor" /\ c.fam = "roaring" /\ Len(c.cors) >= MinCors
        \/ stage = "cor" /\ c.fam = "pql" /\ Len(c.toks) >= MinToks
     /\ hist' = << c >>
@@ -242,8 +274,9 @@ GenNext == Base \/ Corrupt \/ Finish
 \* the expected outcome class of an emitted case (what the harness enforces)
 MustAccept(x) == x.fam = "roaring" /\ x.cors = << >>
 CaseOK == hist # << >> =>
-            /\ hist[1].fam \in {"roaring", "pql", "msg"}
-            /\ hist[1].entry \in Entries \cup SrvEntries \cup PqlEntries \cup MsgEntries
+            /\ hist[1].fam \in {"roaring", "pql", "msg", "env"}
+            /\ hist[1].entry \in Entries \cup SrvEntries \cup PqlEntries \cup MsgEntries \cup EnvEntries
+            /\ (hist[1].fam = "env" => Len(hist[1].views) <= 2 /\ (hist[1].form = "nilmap" => hist[1].views = << >>))
             /\ (hist[1].fam = "roaring" =>
                   /\ ShapeOK(hist[1].fmt, hist[1].shape)
                   /\ Len(hist[1].cors) \in MinCors..MaxCors
